@@ -85,13 +85,14 @@ Proof.
   intros Hrow. unfold attach. destruct (zin g (map gid (grp s))); simpl; [|discriminate]. rewrite Hrow.
   destruct (exist_ok s et elm false) eqn:Ex; [|discriminate]. intros E. inversion E; subst s'; clear E.
   unfold rows_of in *. simpl. unfold add_rows. rewrite filter_app. simpl.
-  assert (Hold : forall l, filter (fun r => (gid r =? g) && Nat.eqb (gty r) et) l = [] ->
+  assert (Hold : forall c l, filter (fun r => (gid r =? g) && Nat.eqb (gty r) et) l = [] ->
             filter (fun r => (gid r =? g) && Nat.eqb (gty r) et)
-                   (map (fun r => {| gid := gid r; gty := gty r; gmem := gmem r; grc := RNone |}) l) = []).
-  { induction l as [|r t IH]; simpl; [reflexivity|]. destruct ((gid r =? g) && Nat.eqb (gty r) et); [discriminate|exact IH]. }
-  assert (H0 : filter (fun r => (gid r =? g) && Nat.eqb (gty r) et)
-                 (if to_none (grp s) then map (fun r => {| gid := gid r; gty := gty r; gmem := gmem r; grc := RNone |}) (grp s) else grp s) = []).
-  { destruct (to_none (grp s)); [apply Hold, Hrow | exact Hrow]. }
+                   (map (fun r => {| gid := gid r; gty := gty r; gmem := gmem r; grc := c |}) l) = []).
+  { intros c. induction l as [|r t IH]; simpl; [reflexivity|].
+    destruct ((gid r =? g) && Nat.eqb (gty r) et); [discriminate|exact IH]. }
+  assert (H0 : filter (fun r => (gid r =? g) && Nat.eqb (gty r) et) (uniform (grp s)) = []).
+  { unfold uniform. destruct (grp s) as [|r0 t] eqn:Eg; [reflexivity|].
+    destruct (forallb (fun r => rc_null (grc r)) (r0 :: t)); [apply Hold, Hrow | exact Hrow]. }
   rewrite H0. simpl. rewrite Z.eqb_refl, Nat.eqb_refl. simpl. eexists. split; [reflexivity|]. simpl. split; [reflexivity|]. split.
   - destruct (grp s); reflexivity.
   - intros x Hx. unfold exist_ok in Ex. rewrite forallb_forall in Ex. apply zin_true, Ex, Hx.
